@@ -135,6 +135,7 @@ inductive Action
   | spawn (t : Nat) (ty : Ty) (rel : Option Nat)      -- thread / process `t` starts a (new) load
   | clearTy (ty : Ty)
   | clearAll
+  | stray (ty : Option Ty) (name : Nat) (b : Bytes)   -- somebody else drops a file below the store dir (top level or a type dir)
 deriving Repr
 
 def step (w : World) : Action → World
@@ -145,6 +146,9 @@ def step (w : World) : Action → World
     | _ => w
   | .clearTy ty => { w with files := fun p => if p.under ty then none else w.files p, dirs := upd w.dirs ty false }
   | .clearAll => { w with files := fun _ => none, dirs := fun _ => false }
+  | .stray ty name b =>
+    { w with files := upd w.files (.foreign ty name) (some b),
+             dirs := match ty with | some t => upd w.dirs t true | none => w.dirs }
 
 def run (w : World) (as : List Action) : World := as.foldl step w
 
